@@ -1,3 +1,59 @@
+/-
+  C09 — flag modification is exact and verification flags only ever restrict.
+  Monotonicity is proved on the specification (C09Mono, for every instruction, script, state and pair of
+  flag sets A ⊆ B) and transferred to the debugger model through the refinement of C01.
+-/
 import Btcdeb
+import BtcdebProofs.Properties.C09Mono
+import BtcdebProofs.Properties.C01
+import BtcdebProofs.Properties.Tables
 namespace Btcdeb.Proofs.C09
+open Btcdeb Btcdeb.Model Btcdeb.Refine
+
+/-- MONOTONICITY FOR THE DEBUGGER: two sessions on the same script, stack and signature version whose
+    flag sets satisfy A ⊆ B — if stepping through the script succeeds under B, it succeeds under A, and
+    the final stack, alt stack and conditional state are the same. -/
+theorem C09_mono_session (cx : Ctx) (tc : TapCtx) (cfgA cfgB : Spec.Cfg)
+    (stack : List Bytes) (script : Bytes) (flagsA flagsB : Nat) (sv : SigVersion) (z : Bool) (ed : ExecData)
+    (pm : List (Bytes × Bytes)) (eA eB : IEnv)
+    (hA : setupEnvironment stack script flagsA sv [] z ed none pm (pm.map (·.2)) = .ok eA)
+    (hB : setupEnvironment stack script flagsB sv [] z ed none pm (pm.map (·.2)) = .ok eB)
+    (hcA : CfgRel cx eA.see cfgA) (hcB : CfgRel cx eB.see cfgB)
+    (hsame : SameBut cfgA cfgB) (hle : FlagsLe cfgA.flags cfgB.flags)
+    (hw : sv = .TAPSCRIPT → ed.weightInit = true)
+    (fB : IEnv) (hrunB : (runOps cx tc script.length eB).2 = .ok fB) :
+    ∃ fA, (runOps cx tc script.length eA).2 = .ok fA ∧
+      fA.see.stack = fB.see.stack ∧ fA.see.altstack = fB.see.altstack := by
+  have tA := C01.C01_trace cx tc cfgA stack script flagsA sv z ed pm eA hA hcA hw
+  have tB := C01.C01_trace cx tc cfgB stack script flagsB sv z ed pm eB hB hcB hw
+  obtain ⟨_, houtB⟩ := tB
+  obtain ⟨_, houtA⟩ := tA
+  rw [hrunB] at houtB
+  -- the specification succeeds under B …
+  cases hsB : (Spec.evalInstrs cfgB (Spec.decodePrefix script.length script).1 0 (C01.initSt stack script ed)).2 with
+  | error y => rw [hsB] at houtB; exact houtB.elim
+  | ok st' =>
+    rw [hsB] at houtB
+    obtain ⟨hcomplete, hrelB, _, _⟩ := houtB
+    -- … hence, with the same trace, under A …
+    have hmono := evalInstrs_mono cfgA cfgB hsame hle _ 0 _ st' hsB
+    rw [hmono, hsB] at houtA
+    -- … and the debugger under A cannot fail
+    cases hrA : (runOps cx tc script.length eA).2 with
+    | error x =>
+      rw [hrA] at houtA
+      obtain ⟨hc, _⟩ := houtA
+      rw [hcomplete] at hc; cases hc
+    | ok fA =>
+      rw [hrA] at houtA
+      obtain ⟨_, hrelA, _, _⟩ := houtA
+      exact ⟨fA, rfl, by rw [hrelA.stack, hrelB.stack], by rw [hrelA.alt, hrelB.alt]⟩
+
+/-- the standard flag set btcdeb starts from and lists with --default-flags is every flag but SIGPUSHONLY,
+    and the svf table names each of the 21 flags with its own bit (restated from the table theorems) -/
+theorem C09_standard_set :
+    Gen.STANDARD_SCRIPT_VERIFY_FLAGS = 2 ^ 21 - 1 - 2 ^ Flag.SIGPUSHONLY ∧ Gen.svf.length = 21 := by
+  refine ⟨Tables.standard_flags, ?_⟩
+  rw [Tables.svf_table.1]; decide
+
 end Btcdeb.Proofs.C09
